@@ -4,7 +4,7 @@
 (* emitted client picks its endpoint, universe domain and client           *)
 (* certificate source from the environment and the client options.         *)
 (* One action per step of the emitted constructor, in its order:           *)
-(*   ReadEnv -> PickCert -> PickUniverse -> PickEndpoint -> Construct      *)
+(*   ReadEnv -> PickCert -> PickUniverse -> CheckArgs -> PickEndpoint      *)
 (* with Reject(err) possible at ReadEnv, PickUniverse and PickEndpoint.    *)
 (* Written from the constructor's documentation (AIP-4114, universe        *)
 (* domain design), with the code's evaluation order.                       *)
@@ -23,8 +23,12 @@ OptCert == {"none", "provided"}
 VARIABLES input, stage, useCert, mtlsMode, universeEnv, cert, universe, endpoint, error
 vars == <<input, stage, useCert, mtlsMode, universeEnv, cert, universe, endpoint, error>>
 
+\* construction arguments: how the transport is given, and which credential-like arguments accompany it
+TransportArgs == {"none", "name", "instance", "callable"}
+CredSets == {{}, {"credentials"}, {"api_key"}, {"scopes"}, {"credentials", "api_key"}, {"credentials_file"}}
 Inputs == [envCert : EnvCert, envMtls : EnvMtls, envUniverse : EnvUniverse, optEndpoint : OptEndpoint,
-           optUniverse : OptUniverse, optCert : OptCert, defaultCertAvailable : BOOLEAN]
+           optUniverse : OptUniverse, optCert : OptCert, defaultCertAvailable : BOOLEAN,
+           transport : TransportArgs, creds : CredSets]
 Init == /\ input \in Inputs /\ stage = "start" /\ useCert = FALSE /\ mtlsMode = "" /\ universeEnv = "unset"
         /\ cert = "none" /\ universe = "" /\ endpoint = "" /\ error = "none"
 
@@ -52,21 +56,34 @@ PickUniverse == /\ stage = "cert"
                       ELSE universe' = u /\ stage' = "universe" /\ UNCHANGED error
                 /\ UNCHANGED <<input, useCert, mtlsMode, universeEnv, cert, endpoint>>
 
+\* mutual exclusions of the constructor arguments, checked after the universe and before the endpoint
+CheckArgs == /\ stage = "universe"
+             /\ IF "api_key" \in input.creds /\ "credentials" \in input.creds
+                THEN error' = "ValueError" /\ stage' = "rejected"
+                ELSE IF input.transport = "instance" /\ (input.creds \cap {"credentials", "credentials_file", "api_key", "scopes"}) # {}
+                THEN error' = "ValueError" /\ stage' = "rejected"
+                ELSE stage' = "args" /\ UNCHANGED error
+             /\ UNCHANGED <<input, useCert, mtlsMode, universeEnv, cert, universe, endpoint>>
+
 WantsMtls == mtlsMode = "always" \/ (mtlsMode = "auto" /\ cert # "none")
-PickEndpoint == /\ stage = "universe"
-                /\ IF input.optEndpoint # "none" THEN endpoint' = input.optEndpoint /\ stage' = "done" /\ UNCHANGED error
+PickEndpoint == /\ stage = "args"
+                /\ IF input.transport = "instance" THEN endpoint' = "TRANSPORT-HOST" /\ stage' = "done" /\ UNCHANGED error
+                   ELSE IF input.optEndpoint # "none" THEN endpoint' = input.optEndpoint /\ stage' = "done" /\ UNCHANGED error
                    ELSE IF WantsMtls THEN
                           IF universe # DefaultUniverse /\ Mutant # "mtls_any_universe"
                           THEN error' = "MutualTLSChannelError" /\ stage' = "rejected" /\ UNCHANGED endpoint
                           ELSE endpoint' = "MTLS" /\ stage' = "done" /\ UNCHANGED error
                    ELSE endpoint' = "TEMPLATE:" \o universe /\ stage' = "done" /\ UNCHANGED error
                 /\ UNCHANGED <<input, useCert, mtlsMode, universeEnv, cert, universe>>
-Next == ReadEnv \/ PickCert \/ PickUniverse \/ PickEndpoint
+Next == ReadEnv \/ PickCert \/ PickUniverse \/ CheckArgs \/ PickEndpoint
 Spec == Init /\ [][Next]_vars /\ WF_vars(Next)
 
 Done == stage \in {"done", "rejected"}
 \* the documented precedence rules
-Inv_OverrideWins == stage = "done" /\ input.optEndpoint # "none" => endpoint = input.optEndpoint
+Inv_OverrideWins == stage = "done" /\ input.optEndpoint # "none" /\ input.transport # "instance" => endpoint = input.optEndpoint
+Inv_InstanceHost == stage = "done" /\ input.transport = "instance" => endpoint = "TRANSPORT-HOST"
+Inv_InstanceExclusive == stage = "done" /\ input.transport = "instance" => input.creds = {}
+Inv_KeyXorCredentials == stage = "done" => ~({"api_key", "credentials"} \subseteq input.creds)
 Inv_NoCertUnlessAsked == stage \in {"cert", "universe", "done"} /\ ~useCert => cert = "none"
 Inv_ProvidedBeatsDefault == stage \in {"cert", "universe", "done"} /\ useCert /\ input.optCert = "provided" => cert = "provided"
 Inv_OptionBeatsEnv == stage \in {"universe", "done"} /\ input.optUniverse # "none" => universe = input.optUniverse
